@@ -359,11 +359,21 @@ impl Mut {
             90..=94 => SEM_NONMOVING,
             _ => SEM_IMMORTAL,
         };
-        if sem == SEM_NONMOVING && cfg!(feature = "var_a") && cfg.plan == "MarkCompact" && cfg.scenario != "nonmoving-markcompact" {
-            // KNOWN FINDING (C01): MarkCompact's two transitive closures are not supported by the
-            // Immix non-moving space of the default feature set; only the dedicated scenario
-            // exercises that combination.
-            sem = SEM_DEFAULT;
+        // KNOWN FINDINGS: allocation semantics that a (variant, plan) combination does not
+        // support on this tree.  Only the dedicated "finding-*" scenarios exercise them (see
+        // DESIGN.md section 5 and known_findings.json).
+        if !cfg.scenario.starts_with("finding-") {
+            let immix_nonmoving = cfg!(any(feature = "var_a", feature = "var_b"));
+            if sem == SEM_NONMOVING && immix_nonmoving && (cfg.plan == "MarkCompact" || cfg.plan == "ConcurrentImmix") {
+                // MarkCompact's two transitive closures / ConcurrentImmix's SATB log bits do not
+                // cover the Immix non-moving space.
+                sem = SEM_DEFAULT;
+            }
+            if (sem == SEM_NONMOVING || sem == SEM_IMMORTAL) && cfg.plan == "Compressor" {
+                // The Compressor only forwards references held in roots, the compressor space and
+                // the LOS.
+                sem = SEM_DEFAULT;
+            }
         }
         if (sem == SEM_NONMOVING && cfg.off("nonmoving")) || (sem == SEM_LOS && cfg.off("los")) || (sem == SEM_IMMORTAL && cfg.off("immortal")) {
             sem = SEM_DEFAULT;
@@ -610,7 +620,7 @@ impl Mut {
         with_report("C11", |r| r.count("user_gc_requests", 1));
     }
 
-    #[cfg(any(feature = "var_a", feature = "var_c"))]
+    #[cfg(feature = "f_pin")]
     fn op_pin(&mut self, unpin: bool) {
         let w = world();
         if !matches!(w.cfg.plan.as_str(), "Immix" | "StickyImmix" | "ConcurrentImmix") {
@@ -646,7 +656,7 @@ impl Mut {
             r.count(if unpin { "unpins" } else { "pins" }, 1);
         });
     }
-    #[cfg(not(any(feature = "var_a", feature = "var_c")))]
+    #[cfg(not(feature = "f_pin"))]
     fn op_pin(&mut self, _unpin: bool) {}
 
     fn op_reg_finalizer(&mut self) {
